@@ -58,11 +58,42 @@ WITNESS_DOC = {"openapi": "3.0.3", "info": {"title": "W", "version": "1"}, "path
         "Holder": {"type": "object", "required": ["item"], "properties": {"item": {"oneOf": [{"$ref": "#/components/schemas/V1"}, {"$ref": "#/components/schemas/V2"}]}}}}}}
 
 
+def nullable_doc(r, first: bool = False) -> tuple[dict, dict]:
+    """Operations whose success body is a NULLABLE named type (object, array alias, integer / boolean / string alias, nullable + allOf,
+    anyOf with null) -> (document, operationId -> conforming bodies that are falsy in Python but not null, plus null and an ordinary one)."""
+    sfx = r.choice(["", "V2", "X"])
+    schemas = {
+        "Prefs" + sfx: {"type": "object", "nullable": True, "properties": {"theme": {"type": "string"}, "compact": {"type": "boolean"}}},
+        "TagList" + sfx: {"type": "array", "nullable": True, "items": {"type": "string"}},
+        "RetryCount" + sfx: {"type": "integer", "nullable": True},
+        "Flag" + sfx: {"type": "boolean", "nullable": True},
+        "Note" + sfx: {"type": "string", "nullable": True},
+        "Base" + sfx: {"type": "object", "properties": {"id": {"type": "integer"}}},
+        "MaybeBase" + sfx: {"nullable": True, "allOf": [{"$ref": "#/components/schemas/Base" + sfx}]},
+    }
+    bodies = {"Prefs": [{}, {"theme": "dark"}, None], "TagList": [[], ["a"], None], "RetryCount": [0, 3, None], "Flag": [False, True, None],
+              "Note": ["", "n", None], "MaybeBase": [{}, {"id": 0}, None]}
+    paths, plan = {}, {}
+    names = [n for n in bodies if r.random() < 0.8 or first] or ["Prefs"]
+    for n in names:
+        opid = "get" + n + sfx
+        ref = {"$ref": "#/components/schemas/" + n + sfx}
+        wrap = r.random() >= 0.7 or (first and n in ("TagList", "Prefs"))      # the first document always carries the witness of F65
+        sch = ref if (not wrap or n == "MaybeBase") else {"nullable": True, "allOf": [ref]}
+        paths["/" + n.lower()] = {"get": {"operationId": opid, "tags": [r.choice(["prefs", "misc"])],
+                                          "responses": {"200": {"description": "ok", "content": {"application/json": {"schema": sch}}}}}}
+        plan[opid] = bodies[n]
+    return {"openapi": "3.0.3", "info": {"title": "N", "version": "1"}, "paths": paths, "components": {"schemas": schemas}}, plan
+
+
 def build_cases(ctx, stream: str, n: int) -> list[dict]:
     cases = []
     for i in range(n):
         r = rng(f"C05:{stream}:{i}")
+        nplan = None
         if stream == "witness":
+            o = None
+        elif stream == "nullable":
             o = None
         elif stream == "mainstream":
             o = gs.Opts(mainstream=True, always_opid=True, max_ops=4, enum_params=False, formats=("byte",), text_binary=False, streaming=False,
@@ -71,15 +102,22 @@ def build_cases(ctx, stream: str, n: int) -> list[dict]:
             o = gs.Opts(mainstream=True, always_opid=True, max_ops=4, enum_params=False, formats=("date-time", "date", "byte"), text_binary=True,
                         streaming=True, unions=True, ndjson=True, multi_media_resp=True)
         doc = gs.gen_spec(r, o) if o is not None else WITNESS_DOC
+        if stream == "nullable":
+            doc, nplan = nullable_doc(r, first=(i == 0))
         calls = []
         for path, m, op, pl in opsrig.ops_of(doc):
             base = opsrig.call_plan(r, doc, path, m, op, pl, supply_optional=0.0)
             from ..gen.spec import is_stream_content
             codes2 = [c for c in op["responses"] if str(c).isdigit() and 200 <= int(c) < 300]
             for c in codes2:
-                for rep in range(2):
+                for rep in range(2 if nplan is None else len(nplan[op["operationId"]])):
                     rp = opsrig.reply_for(r, doc, c, op["responses"][c])
                     rp["code_key"] = c
+                    if nplan is not None:      # a conforming body that is falsy in Python ({} [] 0 false "") is a value, not an absent body
+                        import base64 as _b64
+                        inst = nplan[op["operationId"]][rep]
+                        rp["reply"]["body_b64"] = _b64.b64encode(json.dumps(inst).encode()).decode()
+                        rp["expect"]["json"] = inst
                     if o is None and op["operationId"] == "getU":   # F24 witness: a V2 payload, declared after V1
                         import base64 as _b64
                         inst = {"item": {"a": "x", "b": 7}}
@@ -146,6 +184,8 @@ def resp_features(doc, sch, rp, op) -> dict:
         "top_enum": "enum" in rs,
         "map_body": rs.get("type") == "object" and "properties" not in rs and "allOf" not in rs,
         "secondary_other_media": len((op["responses"].get(rp.get("code_key", ""), {}) or {}).get("content") or {}) > 1 and rp.get("media_type") != _handler_media((op["responses"].get(rp.get("code_key", ""), {}) or {}).get("content") or {}),
+        "allof_of_non_object": isinstance(sch, dict) and "allOf" in sch and any(
+            gs.resolve(doc, m).get("type") in ("array", "string", "integer", "number", "boolean") for m in sch["allOf"] if isinstance(m, dict)),
         "doc_self_ref": any(('"$ref": "#/components/schemas/%s"' % n) in json.dumps(sc) for n, sc in doc["components"]["schemas"].items()),
     }
 
@@ -177,6 +217,8 @@ def attribute(call: dict, mism: list[str]) -> str | None:
         return "F59"   # a secondary 2xx arm is generated from ONE media type (application/json, else the first) and never dispatches
     if f["has_union_inside"] or f["union"]:
         return "F24"
+    if f.get("allof_of_non_object") and ("re-serialises to {}" in text or "structure" in text.lower()):
+        return "F65"   # an inline allOf whose member is an array / primitive alias is promoted to a dataclass without fields
     return None
 
 
@@ -221,7 +263,7 @@ def check(run: Run, ctx) -> None:
     g.run_corr(run, ctx, "vf.corr.loader", "Loader (content keys, stream flag vs Pog.Loader)", quick=0.25, thorough=2.5)
     g.run_oracle(run, ctx, g.Informational(known), "vf.corr.loader", "loader oracle on the real parse_operations (status = declared key, stream flag, parameter order)",
                  {"LOADER-STREAM-FORMAT-ORDER": "-hazard", "LOADER-PROMO-NAME-COLLISION": "-hazard", "LOADER-POST-NAME-OVERWRITE": "-hazard"}, quick=0.3, thorough=3.0)
-    cases = build_cases(ctx, "witness", 1) + build_cases(ctx, "mainstream", ctx.budget(20, 200)) + build_cases(ctx, "wide", ctx.budget(12, 120))
+    cases = build_cases(ctx, "witness", 1) + build_cases(ctx, "mainstream", ctx.budget(20, 200)) + build_cases(ctx, "wide", ctx.budget(12, 120)) + build_cases(ctx, "nullable", ctx.budget(4, 24))
     results = e2e.run_cases("vf.props.C05:case_fn", cases)
     for case, res in zip(cases, results):
         evaluate(run, known, case, res)
